@@ -242,9 +242,10 @@ class _StaticComps(ast.NodeTransformer):
 
         all(E(x) for x in (a, b))    ->  E(a) and E(b)                any(..) -> .. or ..
         tuple(E(x) for x in (a, b))  ->  (E(a), E(b))                 list(..) / [E(x) for x in (a, b)] -> [E(a), E(b)]
-        sep.join(E(x) for x in (a, b)) -> sep.join([E(a), E(b)])      {K(x): V(x) for x in (a, b)} -> {K(a): V(a), K(b): V(b)}
+        sep.join(E(x) for x in (a, b)) -> sep.join([E(a), E(b)])
 
-    One generator, no filter, plain-name targets, pure element expressions in the sequence.  (all/any yield the same truth value
+    (Dict / set comprehensions stay as they are: keying by the elements may merge equal ones, which rules about multiplicity read
+    off the comprehension.)  One generator, no filter, plain-name targets, pure element expressions in the sequence.  (all/any yield the same truth value
     and evaluate the same operands in the same order, stopping at the same one.)"""
 
     def __init__(self, lits):
@@ -297,13 +298,6 @@ class _StaticComps(ast.NodeTransformer):
         if el is None:
             return n
         return ast.copy_location(ast.List(elts=[e[0] for e in el], ctx=ast.Load()), n)
-
-    def visit_DictComp(self, n):
-        self.generic_visit(n)
-        el = self._elts(n, n.key, n.value)
-        if el is None:
-            return n
-        return ast.copy_location(ast.Dict(keys=[e[0] for e in el], values=[e[1] for e in el]), n)
 
     def visit_Call(self, n):
         self.generic_visit(n)
